@@ -53,7 +53,7 @@ func init() {
 		Promises: func(core.Tier) map[string][]string {
 			return map[string][]string{"route": {"Snapshot+RestoreSnapshot", "Snapshot+RestoreFromReader", "SnapshotInTx+RestoreSnapshot", "SnapshotInTx+RestoreFromReader", "StreamToWriter+RestoreSnapshot", "StreamToWriter+RestoreFromReader"},
 				"porcupine": {"ok"}, "snapshot_path": {"path already holds an earlier snapshot"},
-				"restore_reader": {"bytes.Reader", "data+EOF together", "half reads", "4096-byte chunks, EOF with the last", "single read with EOF"},
+				"restore_reader":         {"bytes.Reader", "data+EOF together", "half reads", "4096-byte chunks, EOF with the last", "single read with EOF"},
 				"timeline_after_restore": {"round 0, start initialised", "round 0, start never requested", "round 0, start default on empty", "round 1, start never requested", "failing id function first"}}
 		},
 		MinCounters: func(core.Tier) map[string]int64 {
